@@ -19,9 +19,12 @@ type applyCase struct {
 	Instrs   []model.Instr `json:"instrs"`
 	Filtered *model.Clause `json:"filtered,omitempty"`
 	RowNums  string        `json:"row_nums,omitempty"`
+	// Battery: the returned frame (no instructions: the variant itself) additionally goes through the latent-state
+	// battery (battery.go): follow-up operations on it and on frames derived from it
+	Battery bool `json:"battery,omitempty"`
 }
 
-var c06VariantNames = append(append([]string{}, model.ShapeNames...), "aggregated", "selected", "copied", "zero-rows", "one-row", "one-row-of-a-sorted-frame", "70-rows", "70-rows-sparseperm", "runes-outside-the-basic-plane", "40-rows-two-odd-rows")
+var c06VariantNames = append(append([]string{}, model.ShapeNames...), "aggregated", "selected", "copied", "zero-rows", "one-row", "one-row-of-a-sorted-frame", "70-rows", "70-rows-sparseperm", "runes-outside-the-basic-plane", "40-rows-two-odd-rows", "sorted-by-i", "sorted-by-s-desc", "sorted-by-e", "enum-values-differing-in-case-only")
 
 func c06Base() model.Frame {
 	N := model.Null()
@@ -92,6 +95,27 @@ func c06Variants() []c06Variant {
 	}
 	odd[17], odd[30] = 2, 1
 	add(model.Build(base.Rows(odd)))
+	// frames that were sorted by the column an instruction is going to overwrite
+	add(q.Sort(qframe.Order{Column: "i"}))
+	add(q.Sort(qframe.Order{Column: "s", Reverse: true}))
+	add(q.Sort(qframe.Order{Column: "e"}, qframe.Order{Column: "i"}))
+	// enum and string values that differ in case only and ALL change under ToUpper
+	cv := base.Clone()
+	for ci := range cv.Cols {
+		switch cv.Cols[ci].Name {
+		case "e":
+			cv.Cols[ci].EnumVals = []string{"ab", "aB", "cd", "Ab"}
+			cv.Cols[ci].Cells = []model.Cell{model.S("Ab"), model.S("ab"), model.S("aB"), model.S("cd")}
+		case "s":
+			cv.Cols[ci].Cells = []model.Cell{model.S("aB"), model.S("Ab"), model.Null(), model.S("ab")}
+		}
+	}
+	{
+		cq := model.Build(cv)
+		co := model.Observe(cq)
+		co.AdoptMeta(cv)
+		c06vars = append(c06vars, c06Variant{cq, co})
+	}
 	return c06vars
 }
 
@@ -105,6 +129,8 @@ func c06Alphabet(small bool) []model.Instr {
 		{Fn: "const:nilstring"},
 		{Fn: "const:strptr", S: "p"},
 		// the empty string is a value, not null
+		// a negative zero is a value of its own
+		{Fn: "const:float", FB: math.Float64bits(math.Copysign(0, -1))},
 		{Fn: "const:string", S: ""},
 		{Fn: "const:strptr", S: ""},
 	}
@@ -284,11 +310,28 @@ func runApplyCase(c applyCase) *core.Failure {
 		}
 	default:
 		instrs, calls := model.BuildInstrs(c.Instrs, in)
-		got := model.Observe(v.qf.Apply(instrs...))
+		res := v.qf.Apply(instrs...)
+		got := model.Observe(res)
 		want := model.Apply(in, c.Instrs)
 		if d := model.Diff(want, got); d != "" {
 			fail = core.Failf("Apply %s: %s\n  want: %s\n   got: %s", desc(), d, want, got)
-		} else if !want.Err {
+		} else if !want.Err && c.Battery {
+			decl := map[string][]string{}
+			if ec, _, ok := in.Col("e"); ok && ec.Kind == model.Enum && len(ec.EnumVals) > 0 {
+				decl["e"] = ec.EnumVals
+			}
+			for _, ins := range c.Instrs {
+				if ins.Dst == "e" {
+					delete(decl, "e") // the column is no longer the declared one
+				}
+			}
+			if len(c.Instrs) == 0 {
+				fail = latentDeep(res, decl, "the "+c06VariantNames[c.Variant]+" frame")
+			} else if fail = latentBattery(res, decl, "Apply "+desc()); fail == nil {
+				fail = bookkeepingBattery(res, "Apply "+desc())
+			}
+		}
+		if fail == nil && !want.Err {
 			for i, in2 := range c.Instrs {
 				if strings.HasPrefix(in2.Fn, "fn0:") && calls[i] != in.N {
 					fail = core.Failf("Apply %s: zero-argument function of instruction %d was called %d times for %d rows", desc(), i, calls[i], in.N)
@@ -409,6 +452,17 @@ func c06Run(ctx *core.Ctx) {
 						exec(applyCase{Variant: vi, Instrs: []model.Instr{a, b}, Filtered: &cl})
 					}
 				}
+			}
+		}
+	}
+	// latent state: every frame variant itself (deep battery) and the result of every single instruction on it
+	for vi := range vars {
+		if ctx.Mine() {
+			exec(applyCase{Variant: vi, Battery: true})
+		}
+		for _, a := range full {
+			if ctx.Mine() {
+				exec(applyCase{Variant: vi, Instrs: []model.Instr{a}, Battery: true})
 			}
 		}
 	}
